@@ -85,10 +85,23 @@ def run(ctx):
     natom = ci.getters.get("natom")
     if natom is None:
         raise AnalysisError("IOData.natom property not found")
+    # which arrays the property consults: decided by evaluating it on objects that hold exactly one validated array of
+    # seven rows (an if-chain, a loop over attribute names, ... all read the same)
+    from ..accessors import AccessorEval as _AEval, Raised as _ARaised, Rec as _ARec
+    from ..symarr import NotSymbolic as _NotSym
+
     consulted = set()
-    for n in natom.own_nodes():
-        if isinstance(n, ast.Attribute) and isinstance(n.value, ast.Name) and n.value.id == "self":
-            consulted.add(n.attr.lstrip("_"))
+    for stored in sorted(ci.fields):
+        name = stored.lstrip("_")
+        f0 = {k: None for k in ci.fields}
+        f0[stored] = np.zeros((7, 3)) if name in ("atcoords", "atgradient") else np.zeros(7)
+        try:
+            if _AEval(prog, ci).get(_ARec(ci, **f0), "natom") == 7:
+                consulted.add(name)
+        except _ARaised:
+            pass
+        except _NotSym as exc:
+            raise AnalysisError(f"IOData.natom is outside the evaluation whitelist: {exc}") from exc
     for name in sorted(validated | consulted):
         if name in validated and name in consulted:
             ctx.ok("R1", f"{name}: validated against natom and consulted by natom", f"{ci.module.relpath}:{fields[name]['stmt'].lineno}")
